@@ -367,6 +367,49 @@ def body_flow(ctx):
     analyse(ctx, code, True, 'flow')
 
 
+MF_MAIN = ["import helper\nprint(helper.HX + 1)\nprint(undefined_v)", "from helper import hf\nz = hf(2)\nunused = 1",
+           "import helper\nimport other\nprint(helper.hf(other.OY))\nprint(nowhere)", "x = 1\nprint(y)"]
+MF_FILES = {'helper.py': "HX = 1\ndef hf(a):\n    return a + HX\n", 'other.py': "OY = 'text'\nunused_in_other = 3\n"}
+MF_BETWEEN = [None, 'provide-unrelated-module-type', 'provide-twice']
+
+
+def body_multifile(ctx):
+    """Submissions made of several files (the main file imports student files) and instructor-described modules:
+    analysing the same code again yields the same issues and attaches nothing more."""
+    from pedal.core.submission import Submission
+    from pedal.tifa.commands import tifa_provide_module_type
+    main = MF_MAIN[ctx.choose(len(MF_MAIN), 'main')] + "\n"
+    between = MF_BETWEEN[ctx.choose(len(MF_BETWEEN), 'between')]
+    times = ctx.choose(2, 'repetitions') + 2
+    files = dict(MF_FILES)
+    files['answer.py'] = main
+    case = {'main': main, 'between': between, 'times': times}
+    ctx.observe(repr(case))
+    ctx.set_sample(case)
+    ctx.mark_nontrivial(repr(case))
+    cmds.clear_report()
+    cmds.contextualize_report(Submission(files=files, main_file='answer.py', main_code=main))
+    try:
+        t = tifa_analysis()
+        first = _issues(t)
+        nf = (len(MAIN_REPORT.feedback), len(MAIN_REPORT.ignored_feedback))
+        for k in range(times - 1):
+            if between:
+                tifa_provide_module_type('coursemod%d' % (k if between == 'provide-twice' else 0), {'answer': 'int'})
+            ctx.step('tifa_analysis (again)')
+            t2 = tifa_analysis()
+            if _issues(t2) != first:
+                ctx.fail({'symptom': 'second analysis yields different issues', 'submission': 'several files'}, program=main,
+                         first=first, second=_issues(t2), between=between)
+            if (len(MAIN_REPORT.feedback), len(MAIN_REPORT.ignored_feedback)) != nf:
+                ctx.fail({'symptom': 'analysing the same code again attached more feedback', 'submission': 'several files'},
+                         program=main, before=nf, after=(len(MAIN_REPORT.feedback), len(MAIN_REPORT.ignored_feedback)), between=between)
+                break
+    except BaseException as e:   # noqa
+        ctx.fail({'symptom': 'tifa_analysis raised', 'exception': type(e).__name__}, program=main, message=str(e)[:200])
+    ctx.outcome('multi-file')
+
+
 def bounds(tier):
     return {'snippets': len(SNIP), 'containers': len(WRAP), 'pairs': len(SNIP) ** 2,
             'registry': 'every BUILTIN_NAMES entry x %d argument shapes + statement/iterable uses; every str/list/dict/'
@@ -378,6 +421,8 @@ def phases(tier):
     compute_references()
     return [Phase('program-sequences', body_sequence, setup=_setup, chunk=200,
                   describe='every ordered pair of snippets analysed one after the other, each compared with a fresh-interpreter analysis'),
+            Phase('several-files', body_multifile, setup=_setup, chunk=10,
+                  describe='main files importing student files, module types provided between repeated analyses'),
             Phase('forms', body_forms, setup=_setup, chunk=40, describe='every language-form snippet x container'),
             Phase('pairs', body_pairs, setup=_setup, chunk=100, describe='every ordered pair of snippets'),
             Phase('registry', body_registry, setup=_setup, chunk=100, describe='every registered builtin/method x argument shapes'),
